@@ -683,7 +683,7 @@ func callWorker(req N) (resp N) {
 		return res
 	})
 	opts := []risor.Option{risor.WithConcurrency(), risor.WithLocalImporter(modDir), risor.WithGlobals(globals)}
-	if src == "withos" || src == "withoswarm" || src == "withosvm" {
+	if src == "withos" || src == "withoswarm" || src == "withosvm" || src == "withosafterctx" || src == "withosonce" {
 		opts = append(opts, risor.WithOS(host))
 	}
 	rec.add(event{E: "start", K: src})
@@ -727,6 +727,40 @@ func callWorker(req N) (resp N) {
 				return
 			}
 			err = machine.RunCode(baseCtx, code, cfg.VMOpts()...)
+		} else if src == "withosafterctx" {
+			// the VM (built with the host's OS as an option) first serves an invocation whose CONTEXT carries another
+			// OS; the next invocation comes with a plain context: the VM's own OS is in force again
+			otherOS := ros.NewVirtualOS(baseCtx, ros.WithStdout(ros.NewBufferFile(nil)),
+				ros.WithEnvironment(map[string]string{"VERIF_SENTINEL": "OTHER-env"}), ros.WithCwd("/"))
+			warm, werr := rparser.Parse(baseCtx, "getenv(\"VERIF_SENTINEL\")")
+			if werr == nil {
+				var wcode *compiler.Code
+				if wcode, werr = compiler.Compile(warm, cfg.CompilerOpts()...); werr == nil {
+					werr = machine.RunCode(ros.WithOS(baseCtx, otherOS), wcode)
+				}
+			}
+			if werr != nil {
+				status, msg = "nocompile", "warm-up: "+werr.Error()
+				return
+			}
+			// (no options on these runs: the VM keeps what vm.New was given)
+			err = machine.RunCode(baseCtx, code)
+		} else if src == "withosonce" {
+			// the host's OS is given ONCE, to vm.New; the VM runs a first program and then the script with RunCode
+			// and no options at all
+			warm, werr := rparser.Parse(baseCtx, "getenv(\"VERIF_SENTINEL\")")
+			if werr == nil {
+				var wcode *compiler.Code
+				if wcode, werr = compiler.Compile(warm, cfg.CompilerOpts()...); werr == nil {
+					machine = vm.New(wcode, cfg.VMOpts()...)
+					werr = machine.Run(baseCtx)
+				}
+			}
+			if werr != nil {
+				status, msg = "nocompile", "warm-up: "+werr.Error()
+				return
+			}
+			err = machine.RunCode(baseCtx, code)
 		} else if src == "withosvm" {
 			// the top-level API: risor.Eval with the options WithOS and WithVM (a VM the host made itself)
 			if machine, err = vm.NewEmpty(); err == nil {
